@@ -29,7 +29,8 @@
 //!     between scalars, and a pair of tensors, through `Writable for Vec<T>` / for tuples -- `w`;
 //!   * one Reader delivering a scalar, the tensor twice (the first one starting on the scalar's line, the second one on
 //!     the line on which the first one ends), a scalar and a pair of scalars read as a tuple; the expected elements are
-//!     taken from the text with the standard library's parsing, element type by element type -- `rd`.
+//!     taken from the text with the standard library's parsing, element type by element type -- `rd` (a plain read
+//!     that already differs from std's parsing is printed as read: the model rejects it and the replay shows it).
 use rlib_io::{Readable, Reader, Writable, Writer};
 use rlib_tensor::Tensor;
 use vh::{guarded, p};
@@ -601,7 +602,10 @@ fn run<E: Elem, const D: usize>(t: &[&str]) -> String {
                     Some(t2) => {
                         out.extend(t2.dims().iter().map(|d| d.to_string()));
                         let n2 = t2.iter().count();
-                        if like_rebuilt(&t2) && shared_reader_ok::<E, D>(rdims, &bytes, n2) {
+                        // (a read that already disagrees with std's parsing of the text is printed as it is: the model
+                        // rejects it, and the replay shows what was read)
+                        let plain = lex_all::<E>(&bytes).map_or(true, |v| v.len() >= n2 && t2.iter().eq(v[..n2].iter()));
+                        if !plain || (like_rebuilt(&t2) && shared_reader_ok::<E, D>(rdims, &bytes, n2)) {
                             list(&mut out, t2.iter().map(|x| x.to()));
                         } else {
                             out.push("0".into())
